@@ -35,6 +35,7 @@ from typing import Dict, Iterator, List, Optional, Set, Tuple
 
 REF_FILE = Path(__file__).resolve().parent / "refnames.json"
 INLINE_TEMPS = True
+RESTYLE = True
 
 _FUNC = (ast.FunctionDef, ast.AsyncFunctionDef)
 
@@ -176,7 +177,7 @@ def skeleton(fn) -> List[str]:
         for n in ast.walk(e):
             if isinstance(n, ast.Call):
                 names.append(n.func.attr if isinstance(n.func, ast.Attribute) else (n.func.id if isinstance(n.func, ast.Name) else "?"))
-        return ",".join(names)
+        return ",".join(names) + ("?" if any(isinstance(n, ast.IfExp) for n in ast.walk(e)) else "")
 
     def rec(body):
         for st in body:
@@ -495,7 +496,295 @@ def _eval_order(st: ast.stmt) -> Optional[List[ast.AST]]:
         return [st.value] + list(st.targets)
     if isinstance(st, ast.AugAssign):
         return [st.target, st.value]
+    if isinstance(st, ast.For) and not st.orelse:
+        return [st.iter]
+    if isinstance(st, ast.If):
+        return [st.test]
     return None
+
+
+def _merge_split_names(fn, entry) -> List[str]:
+    """"One name per meaning": the reference re-binds a local X (`bounds = tuple(round(v) for v in bounds)`), the tree under analysis gives that later value its
+    own name Y.  When Y is bound exactly once, outside any loop, by an expression the reference binds to X, and X is neither read nor bound after that
+    statement, Y is X re-used: renamed back."""
+    if "locals" not in entry:
+        return []
+    cur = signatures(fn)
+    if not cur:
+        return []
+    ref = {v: set(sg) for v, sg in entry["locals"]}
+    params = {p.lstrip("*") for p in _params(fn)}
+    done = []
+    in_loop: Set[int] = set()
+    for n in _own_nodes(fn):
+        if isinstance(n, (ast.For, ast.While, ast.AsyncFor)):
+            for st in n.body + n.orelse:
+                for m in ast.walk(st):
+                    in_loop.add(id(m))
+    pinned: Set[str] = set()
+    for n in _own_nodes(fn):
+        if isinstance(n, _FUNC + (ast.Lambda, ast.ClassDef, ast.ListComp, ast.SetComp, ast.DictComp, ast.GeneratorExp)):
+            pass
+        if isinstance(n, _FUNC + (ast.Lambda, ast.ClassDef)):
+            pinned.update(x.id for x in ast.walk(n) if isinstance(x, ast.Name))
+    for y, sg in list(cur.items()):
+        if y in ref or y in params or y in pinned or len(sg) != 1 or not sg[0].startswith("assign:"):
+            continue
+        cands = [x for x, rs in ref.items() if sg[0] in rs and sg[0] not in cur.get(x, ()) and x in cur and x not in pinned]
+        if len(cands) != 1:
+            continue
+        x = cands[0]
+        defs = [n for n in _own_nodes(fn) if isinstance(n, ast.Assign) and len(n.targets) == 1 and isinstance(n.targets[0], ast.Name) and n.targets[0].id == y]
+        if len(defs) != 1 or id(defs[0]) in in_loop:
+            continue
+        d = defs[0]
+        end = (getattr(d, "end_lineno", d.lineno), getattr(d, "end_col_offset", 10 ** 6))
+        later = [m for m in ast.walk(fn) if isinstance(m, ast.Name) and m.id == x and _pos(m) > end]
+        if later:
+            continue
+        _rename_in(fn, {y: x})
+        done.append(f"{y} -> {x} (split name merged)")
+        cur = signatures(fn) or {}
+    return done
+
+
+def _fold_accumulators(fn, keep: Set[str]) -> int:
+    """Only for locals the reference tree does not have: `x = []` directly followed by `for T in IT: [for ..:] [if C:] x.append(E)` (likewise `x = {}` with
+    `x[K] = V`, `x = set()` with `x.add(E)`), `x` bound nowhere else and not read inside the loop, the loop targets not read after the loop: the pair
+    becomes `x = [E for T in IT if C]` (same elements in the same order)."""
+    k = 0
+    stores: Dict[str, int] = {}
+    loads: Dict[str, int] = {}
+    for n in ast.walk(fn):
+        if isinstance(n, ast.Name):
+            if isinstance(n.ctx, ast.Load):
+                loads[n.id] = loads.get(n.id, 0) + 1
+            else:
+                stores[n.id] = stores.get(n.id, 0) + 1
+    params = {p.lstrip("*") for p in _params(fn)}
+
+    def kind_of(v):
+        if isinstance(v, ast.List) and not v.elts:
+            return "list"
+        if isinstance(v, ast.Dict) and not v.keys:
+            return "dict"
+        if isinstance(v, ast.Call) and isinstance(v.func, ast.Name) and v.func.id in ("set", "list", "dict") and not v.args and not v.keywords:
+            return v.func.id
+        return None
+
+    def unwrap(loop, x, kind):
+        """-> (generators, element) or None"""
+        gens = []
+        cur = loop
+        while True:
+            if isinstance(cur, ast.For) and not cur.orelse and len(cur.body) == 1:
+                gens.append(ast.comprehension(target=cur.target, iter=cur.iter, ifs=[], is_async=0))
+                cur = cur.body[0]
+                continue
+            if isinstance(cur, ast.If) and not cur.orelse and len(cur.body) == 1 and gens:
+                gens[-1].ifs.append(cur.test)
+                cur = cur.body[0]
+                continue
+            break
+        if not gens:
+            return None
+        if kind in ("list", "set") and isinstance(cur, ast.Expr) and isinstance(cur.value, ast.Call) and isinstance(cur.value.func, ast.Attribute) \
+                and isinstance(cur.value.func.value, ast.Name) and cur.value.func.value.id == x and len(cur.value.args) == 1 and not cur.value.keywords \
+                and cur.value.func.attr == ("append" if kind == "list" else "add") and not isinstance(cur.value.args[0], ast.Starred):
+            return gens, cur.value.args[0]
+        if kind == "dict" and isinstance(cur, ast.Assign) and len(cur.targets) == 1 and isinstance(cur.targets[0], ast.Subscript) \
+                and isinstance(cur.targets[0].value, ast.Name) and cur.targets[0].value.id == x:
+            return gens, (cur.targets[0].slice, cur.value)
+        return None
+
+    for n in list(_own_nodes(fn)) + [fn]:
+        for field in ("body", "orelse", "finalbody"):
+            blk = getattr(n, field, None)
+            if not (isinstance(blk, list) and blk and isinstance(blk[0], ast.stmt)):
+                continue
+            i = 0
+            while i + 1 < len(blk):
+                a, b = blk[i], blk[i + 1]
+                i += 1
+                if not (isinstance(a, ast.Assign) and len(a.targets) == 1 and isinstance(a.targets[0], ast.Name) and isinstance(b, ast.For)):
+                    continue
+                x = a.targets[0].id
+                kind = kind_of(a.value)
+                if kind is None or x in keep or x in params or stores.get(x, 0) != 1:
+                    continue
+                hit = unwrap(b, x, kind)
+                if hit is None:
+                    continue
+                gens, elt = hit
+                inside = [m for m in ast.walk(b) if isinstance(m, ast.Name)]
+                if sum(1 for m in inside if m.id == x) != 1:
+                    continue  # the accumulator is read inside the loop
+                if any(isinstance(m, (ast.Yield, ast.YieldFrom, ast.Await, ast.NamedExpr, ast.Lambda)) for m in ast.walk(b)):
+                    continue
+                tnames = {m.id for g in gens for m in ast.walk(g.target) if isinstance(m, ast.Name)}
+                if any(stores.get(t, 0) != sum(1 for m in inside if m.id == t and not isinstance(m.ctx, ast.Load)) for t in tnames):
+                    continue  # a loop target is bound elsewhere too
+                if any(loads.get(t, 0) != sum(1 for m in inside if m.id == t and isinstance(m.ctx, ast.Load)) for t in tnames):
+                    continue  # a loop target is read after the loop
+                if kind == "dict":
+                    comp = ast.DictComp(key=elt[0], value=elt[1], generators=gens)
+                elif kind == "set":
+                    comp = ast.SetComp(elt=elt, generators=gens)
+                else:
+                    comp = ast.ListComp(elt=elt, generators=gens)
+                a.value = ast.copy_location(comp, b)
+                ast.fix_missing_locations(a)
+                a.end_lineno = getattr(b, "end_lineno", None)
+                del blk[i]
+                k += 1
+    return k
+
+
+_PURE_BUILTINS = {"len", "set", "frozenset", "tuple", "list", "dict", "sorted", "min", "max", "sum", "any", "all", "abs", "round", "int", "float", "str", "bool",
+                  "isinstance", "zip", "enumerate", "reversed", "range", "repr", "hex", "ord", "chr", "divmod"}
+_MUTATORS = {"append", "extend", "add", "update", "pop", "remove", "insert", "clear", "sort", "reverse", "setdefault", "discard", "popleft", "appendleft",
+             "popitem", "difference_update", "intersection_update", "symmetric_difference_update", "write", "writelines"}
+
+
+def _pure(e) -> bool:
+    """Expressions whose value depends only on the current values of the names / attributes they read (no calls except a few builtins)."""
+    if isinstance(e, (ast.Name, ast.Constant)):
+        return True
+    if isinstance(e, ast.Attribute):
+        return _pure(e.value)
+    if isinstance(e, (ast.Compare,)):
+        return _pure(e.left) and all(_pure(c) for c in e.comparators)
+    if isinstance(e, ast.BinOp):
+        return _pure(e.left) and _pure(e.right)
+    if isinstance(e, ast.BoolOp):
+        return all(_pure(v) for v in e.values)
+    if isinstance(e, ast.UnaryOp):
+        return _pure(e.operand)
+    if isinstance(e, ast.IfExp):
+        return _pure(e.test) and _pure(e.body) and _pure(e.orelse)
+    if isinstance(e, ast.Tuple):
+        return all(_pure(x) for x in e.elts)
+    if isinstance(e, ast.Call):
+        return isinstance(e.func, ast.Name) and e.func.id in _PURE_BUILTINS and all(_pure(a) for a in e.args) and all(k.arg is not None and _pure(k.value) for k in e.keywords)
+    if isinstance(e, ast.JoinedStr):
+        return all(_pure(v) for v in e.values)
+    if isinstance(e, ast.FormattedValue):
+        return _pure(e.value) and (e.format_spec is None or _pure(e.format_spec))
+    return False
+
+
+def _pos(n):
+    return (getattr(n, "lineno", 0), getattr(n, "col_offset", 0))
+
+
+def _inline_pure_temps(fn, keep: Set[str]) -> int:
+    """Only for locals the reference tree does not have ("explaining variables"): `t = e` with `e` pure (names, attribute chains, constants, operators, a few
+    builtins), `t` bound exactly once, every read of `t` later in the same block (at any depth), nothing `e` reads re-bound or mutated after the
+    assignment: every read of `t` is replaced by `e` and the assignment is dropped."""
+    import copy
+    k = 0
+    changed = True
+    while changed:
+        changed = False
+        stores: Dict[str, List[ast.AST]] = {}
+        loads: Dict[str, int] = {}
+        for n in ast.walk(fn):
+            if isinstance(n, ast.Name):
+                if isinstance(n.ctx, ast.Load):
+                    loads[n.id] = loads.get(n.id, 0) + 1
+                else:
+                    stores.setdefault(n.id, []).append(n)
+            elif isinstance(n, ast.arg):
+                pass
+        params = {p.lstrip("*") for p in _params(fn)}
+        pinned: Set[str] = set()
+        comp_bound: Set[str] = set()
+        for n in _own_nodes(fn):
+            if isinstance(n, _FUNC + (ast.ClassDef,)):
+                pinned.update(x.id for x in ast.walk(n) if isinstance(x, ast.Name))
+                pinned.update(x.arg for x in ast.walk(n) if isinstance(x, ast.arg))
+            if isinstance(n, (ast.Global, ast.Nonlocal)):
+                pinned.update(n.names)
+            if isinstance(n, ast.Lambda):
+                comp_bound.update(x.arg for x in ast.walk(n.args) if isinstance(x, ast.arg))
+            if isinstance(n, (ast.ListComp, ast.SetComp, ast.DictComp, ast.GeneratorExp)):
+                for g in n.generators:
+                    comp_bound.update(x.id for x in ast.walk(g.target) if isinstance(x, ast.Name))
+        # mutations, by position
+        mutated: List[Tuple[Tuple[int, int], str]] = []  # (position, base name or ".attr")
+        for n in ast.walk(fn):
+            if isinstance(n, ast.Call) and isinstance(n.func, ast.Attribute) and n.func.attr in _MUTATORS:
+                for x in ast.walk(n.func.value):
+                    if isinstance(x, ast.Name):
+                        mutated.append((_pos(n), x.id))
+            if isinstance(n, (ast.Subscript, ast.Attribute)) and isinstance(n.ctx, (ast.Store, ast.Del)):
+                for x in ast.walk(n.value):
+                    if isinstance(x, ast.Name):
+                        mutated.append((_pos(n), x.id))
+                if isinstance(n, ast.Attribute):
+                    mutated.append((_pos(n), "." + n.attr))
+            if isinstance(n, ast.AugAssign):
+                for x in ast.walk(n.target):
+                    if isinstance(x, ast.Name):
+                        mutated.append((_pos(n), x.id))
+                    if isinstance(x, ast.Attribute):
+                        mutated.append((_pos(n), "." + x.attr))
+        for owner in list(_own_nodes(fn)) + [fn]:
+            for field in ("body", "orelse", "finalbody"):
+                blk = getattr(owner, field, None)
+                if not (isinstance(blk, list) and blk and isinstance(blk[0], ast.stmt)):
+                    continue
+                for i, st in enumerate(blk):
+                    if not (isinstance(st, ast.Assign) and len(st.targets) == 1 and isinstance(st.targets[0], ast.Name)):
+                        continue
+                    x = st.targets[0].id
+                    if x in keep or x in params or x in pinned or x in comp_bound or len(stores.get(x, [])) != 1 or not _pure(st.value):
+                        continue
+                    if isinstance(st.value, ast.Constant) and isinstance(st.value.value, (bool, type(None))):
+                        pass
+                    rest = blk[i + 1:]
+                    uses = [m for r in rest for m in ast.walk(r) if isinstance(m, ast.Name) and m.id == x and isinstance(m.ctx, ast.Load)]
+                    if not uses or len(uses) != loads.get(x, 0):
+                        continue
+                    bases = {m.id for m in ast.walk(st.value) if isinstance(m, ast.Name)}
+                    attrs = {"." + m.attr for m in ast.walk(st.value) if isinstance(m, ast.Attribute)}
+                    if bases & comp_bound:
+                        continue
+                    here = _pos(st)
+                    if any(_pos(sn) >= here for b in bases for sn in stores.get(b, [])):
+                        continue  # something the expression reads is re-bound after the assignment
+                    if any(pos >= here and (what in bases or what in attrs) for pos, what in mutated):
+                        continue
+                    has_call = any(isinstance(m, ast.Call) for m in ast.walk(st.value))
+                    if has_call:
+                        # a freshly built object must only be read as a value: no attribute / item access on the temporary
+                        bad = False
+                        for r in rest:
+                            for m in ast.walk(r):
+                                if isinstance(m, (ast.Attribute, ast.Subscript)) and isinstance(m.value, ast.Name) and m.value.id == x:
+                                    bad = True
+                                if isinstance(m, (ast.For, ast.comprehension)) and isinstance(m.iter, ast.Name) and m.iter.id == x and len(uses) > 1 \
+                                        and isinstance(st.value, ast.Call) and st.value.func.id in ("zip", "enumerate", "reversed"):
+                                    bad = True  # a one-shot iterator read twice
+                        if bad:
+                            continue
+
+                    class S(ast.NodeTransformer):
+                        def visit_Name(self, m):
+                            if m.id == x and isinstance(m.ctx, ast.Load):
+                                return ast.copy_location(copy.deepcopy(st.value), m)
+                            return m
+                    for j in range(i + 1, len(blk)):
+                        blk[j] = S().visit(blk[j])
+                    del blk[i]
+                    k += 1
+                    changed = True
+                    break
+                if changed:
+                    break
+            if changed:
+                break
+    return k
 
 
 def _inline_adjacent_temps(fn, keep: Set[str]) -> int:
@@ -593,7 +882,7 @@ def _inline_adjacent_temps(fn, keep: Set[str]) -> int:
                 return visit(e.comparators[0], e, "comparators", 0)
             return False
         for i, e in enumerate(order):
-            holder = ("value" if e is getattr(st, "value", None) else None)
+            holder = next((f for f in ("value", "iter", "test") if e is getattr(st, f, None)), None)
             ok = visit(e, st, holder, None)
             if found:
                 return found[0]
@@ -609,6 +898,12 @@ def _inline_adjacent_temps(fn, keep: Set[str]) -> int:
             if (isinstance(a, ast.Assign) and len(a.targets) == 1 and isinstance(a.targets[0], ast.Name)):
                 t = a.targets[0].id
                 if t not in keep and stores.get(t) == 1 and loads.get(t) == 1 and t not in pinned and t not in params and not isinstance(a.value, (ast.Lambda, ast.Yield, ast.YieldFrom, ast.Await)):
+                    if isinstance(b, ast.Assign) and len(b.targets) == 1 and isinstance(b.targets[0], ast.Name) and isinstance(b.value, ast.Constant) \
+                            and b.targets[0].id != t and b.targets[0].id not in {x.id for x in ast.walk(a.value) if isinstance(x, ast.Name)} and i + 2 < len(body):
+                        # `n = <constant>` in between neither observes nor disturbs the temporary's expression: look past it
+                        body[i], body[i + 1] = b, a
+                        i += 1
+                        continue
                     hit = first_use_ok(b, t)
                     if hit is not None:
                         parent, field, idx = hit
@@ -630,6 +925,211 @@ def _inline_adjacent_temps(fn, keep: Set[str]) -> int:
             for h in n.handlers:
                 do(h.body)
     do(fn.body)
+    return k
+
+
+# ------------------------------------------------------------------------------------------------------------------------------
+# N9: control-flow restyling, undone by search.  Each rewrite below is an equivalence of Python statements; one is applied only when it brings the
+# function's statement skeleton strictly closer to the reference skeleton, so an unchanged function is never touched and a restyled one is read in the
+# reference's own style (guard clause vs nested if, early return vs else, conditional expression vs if/else, loop over a generator vs nested loops).
+_TERMINATORS = (ast.Return, ast.Raise, ast.Continue, ast.Break)
+
+
+def _negate(c: ast.AST) -> ast.AST:
+    import copy
+    if isinstance(c, ast.UnaryOp) and isinstance(c.op, ast.Not):
+        return copy.deepcopy(c.operand)
+    if isinstance(c, ast.Compare) and len(c.ops) == 1:
+        # orderings too (a <= b  <->  not a > b): exact for the ints / finite numbers this code base compares (it would not be for NaN)
+        flip = {ast.Eq: ast.NotEq, ast.NotEq: ast.Eq, ast.Is: ast.IsNot, ast.IsNot: ast.Is, ast.In: ast.NotIn, ast.NotIn: ast.In,
+                ast.Lt: ast.GtE, ast.GtE: ast.Lt, ast.Gt: ast.LtE, ast.LtE: ast.Gt}
+        for a, b in flip.items():
+            if isinstance(c.ops[0], a):
+                return ast.copy_location(ast.Compare(left=copy.deepcopy(c.left), ops=[b()], comparators=copy.deepcopy(c.comparators)), c)
+    return ast.copy_location(ast.UnaryOp(op=ast.Not(), operand=copy.deepcopy(c)), c)
+
+
+def _ends_in_terminator(body) -> bool:
+    return bool(body) and isinstance(body[-1], _TERMINATORS)
+
+
+def _restyle_candidates(fn):
+    """-> list of thunks; each applies one equivalence rewrite in place.  The enumeration order is a function of the tree alone, so the i-th candidate of
+    a deep copy is the same rewrite."""
+    out = []
+
+    def blocks(node, in_loop_body):
+        for field in ("body", "orelse", "finalbody"):
+            blk = getattr(node, field, None)
+            if isinstance(blk, list) and blk and isinstance(blk[0], ast.stmt):
+                yield blk, (field == "body" and isinstance(node, (ast.For, ast.While)) and not node.orelse), (field == "body" and node is fn)
+        if isinstance(node, ast.Try):
+            for h in node.handlers:
+                yield h.body, False, False
+
+    def has_break(stmts):
+        for st in stmts:
+            for n in ast.walk(st):
+                if isinstance(n, (ast.Break,)):
+                    return True
+        return False
+
+    todo = [fn]
+    owners = []
+    while todo:
+        n = todo.pop(0)
+        owners.append(n)
+        for ch in ast.iter_child_nodes(n):
+            if isinstance(ch, _FUNC + (ast.Lambda, ast.ClassDef)):
+                continue
+            if isinstance(ch, (ast.stmt, ast.ExceptHandler)):
+                todo.append(ch)
+    for owner in owners:
+        for blk, loop_body, func_body in blocks(owner, False):
+            for i, st in enumerate(blk):
+                if isinstance(st, ast.If):
+                    rest = blk[i + 1:]
+                    # A: guard-continue -> nested if
+                    if loop_body and not st.orelse and len(st.body) == 1 and isinstance(st.body[0], ast.Continue) and rest:
+                        def a(blk=blk, i=i, st=st):
+                            new = ast.copy_location(ast.If(test=_negate(st.test), body=blk[i + 1:], orelse=[]), st)
+                            blk[i:] = [new]
+                        out.append(a)
+                    if func_body and not st.orelse and len(st.body) == 1 and isinstance(st.body[0], ast.Return) and st.body[0].value is None and rest \
+                            and not isinstance(rest[-1], ast.Return):
+                        def a2(blk=blk, i=i, st=st):
+                            new = ast.copy_location(ast.If(test=_negate(st.test), body=blk[i + 1:], orelse=[]), st)
+                            blk[i:] = [new]
+                        out.append(a2)
+                    # A': trailing nested if -> guard-continue
+                    if loop_body and not st.orelse and i == len(blk) - 1 and not (len(st.body) == 1 and isinstance(st.body[0], ast.Continue)):
+                        def a1(blk=blk, i=i, st=st):
+                            g = ast.copy_location(ast.If(test=_negate(st.test), body=[ast.copy_location(ast.Continue(), st)], orelse=[]), st)
+                            blk[i:] = [g] + st.body
+                        out.append(a1)
+                    # B: `if c: ...terminator` + REST -> if/else
+                    if not st.orelse and _ends_in_terminator(st.body) and rest:
+                        def b(blk=blk, i=i, st=st):
+                            st.orelse = blk[i + 1:]
+                            del blk[i + 1:]
+                        out.append(b)
+                    # B': if/else with a terminating arm -> guard + rest
+                    if st.orelse and not (len(st.orelse) == 1 and isinstance(st.orelse[0], ast.If)) and i == len(blk) - 1:
+                        if _ends_in_terminator(st.body):
+                            def b1(blk=blk, i=i, st=st):
+                                tail = st.orelse
+                                st.orelse = []
+                                blk[i + 1:i + 1] = tail
+                            out.append(b1)
+                        if _ends_in_terminator(st.orelse):
+                            def b2(blk=blk, i=i, st=st):
+                                body = st.body
+                                st.test = _negate(st.test)
+                                st.body, st.orelse = st.orelse, []
+                                blk[i + 1:i + 1] = body
+                            out.append(b2)
+                    # G: flip a two-armed if
+                    if st.orelse and not (len(st.orelse) == 1 and isinstance(st.orelse[0], ast.If)):
+                        def g(st=st):
+                            st.test = _negate(st.test)
+                            st.body, st.orelse = st.orelse, st.body
+                        out.append(g)
+                    # F: nested ifs <-> and
+                    if not st.orelse and len(st.body) == 1 and isinstance(st.body[0], ast.If) and not st.body[0].orelse:
+                        def f(st=st):
+                            inner = st.body[0]
+                            st.test = ast.copy_location(ast.BoolOp(op=ast.And(), values=[st.test, inner.test]), st.test)
+                            st.body = inner.body
+                        out.append(f)
+                    if not st.orelse and isinstance(st.test, ast.BoolOp) and isinstance(st.test.op, ast.And) and len(st.test.values) >= 2:
+                        def f1(st=st):
+                            vals = st.test.values
+                            first = vals[0]
+                            restt = vals[1] if len(vals) == 2 else ast.copy_location(ast.BoolOp(op=ast.And(), values=vals[1:]), st.test)
+                            inner = ast.copy_location(ast.If(test=restt, body=st.body, orelse=[]), st)
+                            st.test = first
+                            st.body = [inner]
+                        out.append(f1)
+                    # C': if/else assigning the same name -> conditional expression
+                    if len(st.body) == 1 and len(st.orelse) == 1 and isinstance(st.body[0], ast.Assign) and isinstance(st.orelse[0], ast.Assign) \
+                            and len(st.body[0].targets) == 1 and len(st.orelse[0].targets) == 1 and ast.dump(st.body[0].targets[0]) == ast.dump(st.orelse[0].targets[0]):
+                        def c1(blk=blk, i=i, st=st):
+                            v = ast.copy_location(ast.IfExp(test=st.test, body=st.body[0].value, orelse=st.orelse[0].value), st)
+                            blk[i] = ast.copy_location(ast.Assign(targets=st.body[0].targets, value=v), st)
+                        out.append(c1)
+                    # H: `if c: return a` / `return b`  ->  `if not c: return b` / `return a`
+                    if len(st.body) == 1 and isinstance(st.body[0], ast.Return) and not st.orelse and len(rest) == 1 and isinstance(rest[0], ast.Return):
+                        def h(blk=blk, i=i, st=st):
+                            other = blk[i + 1]
+                            st.test = _negate(st.test)
+                            blk[i + 1] = st.body[0]
+                            st.body = [other]
+                        out.append(h)
+                    # D': `if c: return a` / `return b` -> return a if c else b
+                    if len(st.body) == 1 and isinstance(st.body[0], ast.Return) and st.body[0].value is not None and not st.orelse and len(rest) == 1 \
+                            and isinstance(rest[0], ast.Return) and rest[0].value is not None:
+                        def d1(blk=blk, i=i, st=st):
+                            v = ast.copy_location(ast.IfExp(test=st.test, body=st.body[0].value, orelse=blk[i + 1].value), st)
+                            blk[i:] = [ast.copy_location(ast.Return(value=v), st)]
+                        out.append(d1)
+                # C: conditional-expression assignment -> if/else
+                if isinstance(st, ast.Assign) and isinstance(st.value, ast.IfExp) and len(st.targets) == 1:
+                    def c(blk=blk, i=i, st=st):
+                        import copy
+                        x = st.value
+                        a_ = ast.copy_location(ast.Assign(targets=st.targets, value=x.body), st)
+                        b_ = ast.copy_location(ast.Assign(targets=copy.deepcopy(st.targets), value=x.orelse), st)
+                        blk[i] = ast.copy_location(ast.If(test=x.test, body=[a_], orelse=[b_]), st)
+                    out.append(c)
+                # D: return of a conditional expression -> guard return + return
+                if isinstance(st, ast.Return) and isinstance(st.value, ast.IfExp):
+                    def d(blk=blk, i=i, st=st):
+                        x = st.value
+                        g_ = ast.copy_location(ast.If(test=x.test, body=[ast.copy_location(ast.Return(value=x.body), st)], orelse=[]), st)
+                        blk[i:i + 1] = [g_, ast.copy_location(ast.Return(value=x.orelse), st)]
+                    out.append(d)
+                # E: loop over a generator expression that yields its own innermost variable -> nested loops
+                if isinstance(st, ast.For) and not st.orelse and isinstance(st.iter, ast.GeneratorExp) and isinstance(st.target, ast.Name) \
+                        and isinstance(st.iter.elt, ast.Name) and st.iter.elt.id == st.target.id and not has_break(st.body) \
+                        and isinstance(st.iter.generators[-1].target, ast.Name) and st.iter.generators[-1].target.id == st.target.id:
+                    def e(blk=blk, i=i, st=st):
+                        gens = st.iter.generators
+                        body = st.body
+                        for gi in range(len(gens) - 1, -1, -1):
+                            gq = gens[gi]
+                            for cnd in reversed(gq.ifs):
+                                body = [ast.copy_location(ast.If(test=cnd, body=body, orelse=[]), st)]
+                            body = [ast.copy_location(ast.For(target=gq.target, iter=gq.iter, body=body, orelse=[]), st)]
+                        blk[i] = body[0]
+                    out.append(e)
+    return out
+
+
+def _restyle_towards(fn, ref_skel: List[str], max_steps: int = 12) -> int:
+    import copy
+    k = 0
+    cur = skeleton_drift(skeleton(fn), ref_skel)
+    while cur > 0 and k < max_steps:
+        n = len(_restyle_candidates(fn))
+        best = None
+        for i in range(n):
+            trial = copy.deepcopy(fn)
+            cands = _restyle_candidates(trial)
+            if i >= len(cands):
+                break
+            try:
+                cands[i]()
+            except Exception:
+                continue
+            d = skeleton_drift(skeleton(trial), ref_skel)
+            if d < cur and (best is None or d < best[0]):
+                best = (d, i)
+        if best is None:
+            break
+        _restyle_candidates(fn)[best[1]]()
+        ast.fix_missing_locations(fn)
+        cur = best[0]
+        k += 1
     return k
 
 
@@ -671,6 +1171,9 @@ class Normalizer:
         self.unflipped = 0
         self.annotated = 0
         self.temps = 0
+        self.folded = 0
+        self.pure_temps = 0
+        self.restyled = 0
         self.param_renames: Dict[str, Dict[str, str]] = {}  # function simple name -> {current kw: reference kw}
 
     def module(self, stem: str, tree: ast.Module):
@@ -685,9 +1188,19 @@ class Normalizer:
                 continue
             self._params(stem, qn, fn, entry)
             self._locals(stem, qn, fn, entry)
+            self.renamed += [f"{stem}.{qn}: {x}" for x in _merge_split_names(fn, entry)]
             if INLINE_TEMPS and "locals" in entry:
                 keep = {v for v, _ in entry["locals"]} | {p.lstrip("*") for p in entry["params"]}
+                self.folded += _fold_accumulators(fn, keep)
+                self.pure_temps += _inline_pure_temps(fn, keep)
                 self.temps += _inline_adjacent_temps(fn, keep)
+                if RESTYLE and entry.get("skeleton") is not None:
+                    r = _restyle_towards(fn, entry["skeleton"])
+                    if r:
+                        self.restyled += r
+                        self.folded += _fold_accumulators(fn, keep)
+                        self.pure_temps += _inline_pure_temps(fn, keep)
+                        self.temps += _inline_adjacent_temps(fn, keep)
         self.log_stmts += _strip_logging(tree)
 
     def _params(self, stem, qn, fn, entry):
